@@ -43,6 +43,7 @@ def configs(tier):
     for mode in ("soft", "fast-inf", "fast-2"):
         out.append(dict(key=f"{mode},n_samples=2,precision=numeric", mode=mode, n=2, prec="numeric", extra=2, cost=300))
         out.append(dict(key=f"{mode},n_samples=2,precision=None,gt-subset", mode=mode, n=2, prec=None, gt=True, cost=5))
+    out.append(dict(key="soft,n_samples=2,precision=numeric,gt-subset", mode="soft", n=2, prec="numeric", extra=2, gt=True, cost=300))
     for name in ("high", "medium", "low"):
         out.append(dict(key=f"exact,n_samples=2,precision={name}", mode="exact", n=2, prec=name, extra=2, cost=300))
     out.append(dict(key="soft+fast-raises", mode="soft+fast", n=1, prec=None, cost=1))
